@@ -43,6 +43,8 @@ class _W(object):
         self.serial = 0
         self.nitem = 0
         self.log = []  # ("start"/"end", serial, key)
+        self.none_runs = []
+        self.none_mark = 0
         self.out = []
         self.probes = {}
 
@@ -60,7 +62,14 @@ class _W(object):
         self.log.append(("end", s, key))
         if a >= 8:
             raise SimError("body:%r#%d" % (key, s))
+        if a == 4:
+            self.none_runs.append((key, s))
+            return None  # a legitimate result that happens to be None
         return (who, a, b, c, s)
+
+
+class _Skip(Exception):
+    """The case mixes a None-valued call into a multi-call step: not judged."""
 
 
 class RefLRU(object):
@@ -94,8 +103,11 @@ class C13(object):
         steps = []
         avals = rng.sample([0, 1, 2, 3, 4, 5, 8, 9], rng.randint(1, 4))
 
-        def call():
-            return [rng.randint(0, 2), rng.choice(avals), rng.choice([0, 0, 1, 2]), rng.choice([0, 0, 1]), rng.choice(FORMS)]
+        def call(single=True):
+            a = rng.choice(avals)
+            if a == 4 and not single:
+                a = 2
+            return [rng.randint(0, 2), a, rng.choice([0, 0, 1, 2]), rng.choice([0, 0, 1]), rng.choice(FORMS)]
         for _ in range(rng.randint(2, 10)):
             r = rng.random()
             if target == "lazy":
@@ -111,7 +123,7 @@ class C13(object):
                 elif r < 0.75:
                     steps.append(["call", [call()]])
                 else:
-                    steps.append(["call", [call() for _ in range(rng.randint(2, 3))]])
+                    steps.append(["call", [call(False) for _ in range(rng.randint(2, 3))]])
         return {"target": target, "maxsize": rng.randint(1, 4), "ttl": rng.choice([0, 100, 100, 1000]),
                 "lazy_blocks": rng.random() < 0.5, "lazy_fail_every": rng.choice([0, 0, 2, 3]),
                 "steps": steps, "prio": gen.gen_prio(rng, 2)}
@@ -132,6 +144,8 @@ class C13(object):
                 self._run_alru(W, case, t == "alru_keyfn")
         except HarnessError:
             raise
+        except _Skip:
+            del W.out[:]
         W.B.teardown()
         real.reset_world()
         sig = repr((t, case.get("maxsize"), case.get("steps")))
@@ -147,6 +161,32 @@ class C13(object):
         pending = []
         for (who, a, b, c), res in zip(calls, results):
             k = keyf(who, a, b, c)
+            if a == 4:
+                # None-valued results carry no serial: judge them by the body-run log, in
+                # single-call steps only (the log then belongs to exactly this call)
+                if len(calls) != 1:
+                    raise _Skip()
+                hit, v = ref.get(k)
+                ran = len(W.none_runs) - W.none_mark
+                W.probe("none_valued_result")
+                if res != ("V", None) and not (hit and v is not None):
+                    W.out.append(("none-value", "step %d: call %r gave %r" % (step_no, (who, a, b, c), res)))
+                    return
+                if hit and v is None and ran != 0:
+                    W.out.append(("hit-value", "step %d: call %r must be a cache hit (the cached result is None) but the body ran again" % (step_no, (who, a, b, c))))
+                    return
+                if hit:
+                    W.probe("hit")
+                    if res != ("V", v):
+                        W.out.append(("hit-value", "step %d: call %r must be a cache hit returning %r but gave %r" % (step_no, (who, a, b, c), v, res)))
+                        return
+                    continue
+                W.probe("miss")
+                if ran != 1:
+                    W.out.append(("miss-ran-body", "step %d: call %r is a miss but the body ran %d times" % (step_no, (who, a, b, c), ran)))
+                    return
+                ref.put(k, None)
+                continue
             hit, v = ref.get(k)
             if hit:
                 W.probe("hit")
@@ -182,6 +222,7 @@ class C13(object):
 
     def _drive(self, W, make_calls):
         """Runs one step: make_calls() -> list of futures, yielded together; returns outcomes."""
+        W.none_mark = len(W.none_runs)
         @A.asynq()
         def one(fut):
             try:
@@ -197,6 +238,7 @@ class C13(object):
 
     def _run_alru(self, W, case, keyfn):
         self.seen = set()
+        self.none_seen = 0
         maxsize = max(1, int(case.get("maxsize", 2)))
 
         def body(a, b=0, *, c=0):
@@ -229,6 +271,7 @@ class C13(object):
     # ---- acached_per_instance -------------------------------------------------------------------
     def _run_instances(self, W, case):
         self.seen = set()
+        self.none_seen = 0
 
         class K(object):
             def __init__(self, n):
